@@ -768,7 +768,7 @@ func sanitizeExt(s *Session) {
 }
 
 func TestRtmpReadFaults(t *testing.T) {
-	ev.Rapid(t, "rtmp-read-faults", 200, 4000, func(t *rapid.T) {
+	ev.Rapid(t, "rtmp-read-faults", 200, 16000, func(t *rapid.T) {
 		c := RCase{Session: genSession(t), Segs: segsFrom(t)}
 		sanitizeExt(&c.Session)
 		var cnt counts
@@ -807,7 +807,7 @@ var recRtmpWrite = ev.New(prop, "rtmp-write-faults",
 		"calls that returned nil are completely on the transport, transport bytes are a prefix that dechunks to the written messages; non-trivial = fault strictly inside a message").Require("session")
 
 func TestRtmpWriteFaults(t *testing.T) {
-	ev.Rapid(t, "rtmp-write-faults", 150, 3000, func(t *rapid.T) {
+	ev.Rapid(t, "rtmp-write-faults", 150, 12000, func(t *rapid.T) {
 		s := genSession(t)
 		s.Ref = false
 		if rapid.IntRange(0, 5).Draw(t, "bigmsg") == 0 {
@@ -851,7 +851,7 @@ var recFlv = ev.New(prop, "flv-faults",
 		"non-trivial = fault strictly inside the header or a tag").Require("file")
 
 func TestFlvFaults(t *testing.T) {
-	ev.Rapid(t, "flv-faults", 150, 3000, func(t *rapid.T) {
+	ev.Rapid(t, "flv-faults", 150, 12000, func(t *rapid.T) {
 		c := FCase{File: FFile{HasVideo: rapid.Bool().Draw(t, "hv"), HasAudio: rapid.Bool().Draw(t, "ha")}, Segs: segsFrom(t)}
 		n := rapid.IntRange(0, 6).Draw(t, "ntags")
 		for i := 0; i < n; i++ {
@@ -876,7 +876,7 @@ var recErr = ev.New(prop, "errors-nesting",
 		"Error()/%v/%s == outer-to-inner messages joined by ': ' + root text, nil stays nil; non-trivial = depth>=2").Require("deep", "nil-root")
 
 func TestErrorsNesting(t *testing.T) {
-	ev.Rapid(t, "errors-nesting", 5000, 300000, func(t *rapid.T) {
+	ev.Rapid(t, "errors-nesting", 5000, 3000000, func(t *rapid.T) {
 		c := ECase{Root: rapid.SampledFrom([]string{"eof", "unexpected", "new", "errorf", "std", "nil", "wrapper", "wrapper-nil", "operror"}).Draw(t, "root"), Text: rapid.StringMatching(`[ -~]{0,12}`).Draw(t, "text")}
 		n := rapid.IntRange(1, 12).Draw(t, "depth")
 		for i := 0; i < n; i++ {
